@@ -1334,6 +1334,13 @@ func registerLibIntrinsics() {
 	I["runtime/debug.Stack"] = func(in *Interp, fr *frame, args []Value) (Value, bool) {
 		return SymBytes{s: CStr("goroutine 1 [running]:\n(stack omitted)\n")}, true
 	}
+	// runtime.Goexit: the goroutine's deferred calls run, recover() does not stop it, and
+	// the goroutine ends without taking the process down
+	I["runtime.Goexit"] = func(in *Interp, fr *frame, args []Value) (Value, bool) {
+		in.emit("goexit")
+		fr.tpanic("goexit", CStr("runtime.Goexit"))
+		return nil, true
+	}
 	I["runtime/debug.PrintStack"] = func(in *Interp, fr *frame, args []Value) (Value, bool) { return nil, true }
 	I["time.Sleep"] = func(in *Interp, fr *frame, args []Value) (Value, bool) {
 		in.preempt()
